@@ -5,6 +5,7 @@ and is removed afterwards.  Nothing is written to evidence/ or replays/.
 
     python -m vf.bounded._stateful_mutate C13 transforms/scale.py 'ddof = _state["ddof"]' 'pass'
     python -m vf.bounded._stateful_mutate C13 --none          # unmutated copy (must match ./check)
+    python -m vf.bounded._stateful_mutate C04 --patch some.diff [--seed N] [--tier thorough]
 """
 from __future__ import annotations
 
@@ -26,7 +27,7 @@ assert os.path.realpath(formulaic.__file__).startswith(os.path.realpath(sys.argv
 from vf import core
 import importlib
 prop, tier = sys.argv[1], sys.argv[2]
-ctx = core.Ctx(prop, tier, 0)
+ctx = core.Ctx(prop, tier, int(sys.argv[4]) if len(sys.argv) > 4 else 0)
 mod = importlib.import_module("vf.bounded." + prop.lower())
 mod.run_bounded(ctx)
 c = collections.Counter((v["clause"], v["witness"].get("cls")) for v in ctx.violations)
@@ -36,10 +37,14 @@ print("RESULT " + json.dumps({"violations": sorted([k[0], k[1], n] for k, n in c
 """
 
 
-def run_mutant(prop, relpath=None, old=None, new=None, tier="quick", count=1):
+def run_mutant(prop, relpath=None, old=None, new=None, tier="quick", count=1, patch=None, seed=0):
     with tempfile.TemporaryDirectory(prefix="vf-mut-") as tmp:
         shutil.copytree(REPO / "formulaic", Path(tmp) / "formulaic",
                         ignore=shutil.ignore_patterns("__pycache__", "*.pyc"))
+        if patch is not None:
+            r = subprocess.run(["patch", "-p1", "-s", "-d", tmp, "-i", str(Path(patch).resolve())], capture_output=True, text=True)
+            if r.returncode != 0:
+                raise SystemExit("patch failed: " + r.stdout + r.stderr)
         if relpath is not None:
             p = Path(tmp) / "formulaic" / relpath
             src = p.read_text()
@@ -47,7 +52,7 @@ def run_mutant(prop, relpath=None, old=None, new=None, tier="quick", count=1):
                 raise SystemExit(f"mutation site occurs {src.count(old)} times in {relpath}, expected {count}")
             p.write_text(src.replace(old, new))
         env = {**os.environ, "PYTHONPATH": f"{tmp}{os.pathsep}{ROOT}", "PYTHONDONTWRITEBYTECODE": "1"}
-        r = subprocess.run([sys.executable, "-c", RUNNER, prop, tier, tmp], capture_output=True, text=True,
+        r = subprocess.run([sys.executable, "-c", RUNNER, prop, tier, tmp, str(seed)], capture_output=True, text=True,
                            cwd=str(ROOT), env=env)
         line = [ln for ln in r.stdout.splitlines() if ln.startswith("RESULT ")]
         if r.returncode != 0 or not line:
@@ -62,8 +67,15 @@ def main(argv):
         i = argv.index("--tier")
         tier = argv[i + 1]
         argv = argv[:i] + argv[i + 2:]
+    seed = 0
+    if "--seed" in argv:
+        i = argv.index("--seed")
+        seed = int(argv[i + 1])
+        argv = argv[:i] + argv[i + 2:]
     if argv[1] == "--none":
-        out = run_mutant(prop, tier=tier)
+        out = run_mutant(prop, tier=tier, seed=seed)
+    elif argv[1] == "--patch":
+        out = run_mutant(prop, tier=tier, patch=argv[2], seed=seed)
     else:
         out = run_mutant(prop, argv[1], argv[2], argv[3], tier=tier)
     if "error" in out:
